@@ -51,7 +51,7 @@ Section Statements.
   Proof. exact (gi_matches_flat pm negative). Qed.
 End Statements.
 
-Check C28_stack_semantics_partial : forall (pat : Type) (pm : pat -> path -> bool -> bool)
+Check @C28_stack_semantics_partial : forall (pat : Type) (pm : pat -> path -> bool -> bool)
   (negative : pat -> bool) (st : stack) (base : list pat) (p : path) (is_dir : bool),
   jj_ignored pm negative st base p is_dir = git_ignored pm negative st base p is_dir.
 
